@@ -7,7 +7,7 @@
    by induction on e, with the side conditions on the context (cl pc, fl pc) discharged by the table facts prec_wf
    proved by vm_compute on the regenerated Gen/TablesC15.v. *)
 From Coq Require Import ZArith NArith List Bool Lia Arith.
-From PydoctorVerif Require Import Base.Sexp Base.PyExpr Gen.TablesC15 Model.StrEsc Model.Wrap Spec.PyGrammar
+From PydoctorVerif Require Import Base.Sexp Base.PyExpr Gen.TablesC15 Model.StrEsc Model.Wrap Spec.PyGrammar Spec.PyLex
      Model.ExprPrint Proofs.PyGrammarProofs.
 Import ListNotations.
 
@@ -600,11 +600,12 @@ Proof.
   induction items as [|[k v] items IH]; intros HF rest.
   - cbn. apply ES_dict_nil.
   - inversion HF as [|? ? HD HF']; subst. cbn [map]. rewrite commas_cons.
-    unfold Dst in HD. cbn [fst snd] in HD. unfold normitem at 1. cbn [fst snd].
+    unfold Dst in HD. cbn [fst snd] in HD.
     destruct k as [k|].
     + destruct HD as [[Hk1 [Hk2 Rk]] Rv].
       destruct (head_prim k (POther None) Hk1 Hk2 (prim_other _ Hk2)) as [t [ts [Hp Hh]]].
-      unfold itemtoks at 1. cbn [fst snd].
+      change (itemtoks (Some k, v)) with (pp (POther None) k ++ TColon :: pp (POther (Some prec_comma)) v).
+      change (normitem (Some k, v)) with (Some (norm k), norm v).
       destruct (map itemtoks items) as [|b L] eqn:EL.
       * assert (items = []) by (destruct items; [reflexivity|discriminate]). subst items. cbn [map].
         norm_app.
@@ -624,7 +625,8 @@ Proof.
                                    (r3 := commas (b :: L) ++ TRC :: rest); [exact Hh|exact Hr| |].
         -- apply Rv; reflexivity.
         -- apply IH. exact HF'.
-    + unfold itemtoks at 1. cbn [fst snd].
+    + change (itemtoks (None, v)) with (TOp ODStar :: pp (POther None) v).
+      change (normitem (None, v)) with (@None expr, norm v).
       destruct (map itemtoks items) as [|b L] eqn:EL.
       * assert (items = []) by (destruct items; [reflexivity|discriminate]). subst items. cbn [map].
         norm_app. apply ES_dict_unpack_last. apply HD; [unfold L_bitor; lia|reflexivity|reflexivity].
@@ -655,7 +657,12 @@ Proof.
   induction kws as [|[k v] kws IH]; intros HF stt rest.
   - cbn. apply ES_args_nil.
   - inversion HF as [|? ? Rv HF']; subst. cbn [snd] in Rv. cbn [map]. rewrite commas_cons.
-    unfold kwtoks at 1. unfold normkw at 1. cbn [fst snd].
+    change (normkw (k, v)) with (k, norm v).
+    assert (Ek : kwtoks (k, v) = match k with
+                                 | Some name => TName name :: TEq :: pp (POther None) v
+                                 | None => TOp ODStar :: pp (POther None) v
+                                 end) by reflexivity.
+    rewrite Ek. clear Ek.
     destruct (map kwtoks kws) as [|b L] eqn:EL.
     + assert (kws = []) by (destruct kws; [reflexivity|discriminate]). subst kws. cbn [map].
       destruct k as [name|]; norm_app.
@@ -765,4 +772,328 @@ Proof.
       * subst x. cbn [pp norm]. norm_app.
         apply ES_args_star_cons with (r2 := commas (b :: L) ++ TRP :: rest); [|exact IH].
         apply Hx; [unfold L_test; lia|reflexivity|reflexivity].
+Qed.
+
+(* ------------------------------------------------------------------ dotted names *)
+Lemma dotted_tokens_snoc parts a :
+  parts <> [] -> dotted_tokens (parts ++ [a]) = dotted_tokens parts ++ [TDot; TName a].
+Proof.
+  induction parts as [|p parts IH]; [congruence|]. intros _.
+  destruct parts as [|q parts].
+  - reflexivity.
+  - change (dotted_tokens ((p :: q :: parts) ++ [a])) with (TName p :: TDot :: dotted_tokens ((q :: parts) ++ [a])).
+    rewrite IH by discriminate. reflexivity.
+Qed.
+
+Lemma dotted_read v :
+  name_chain v = true ->
+  exists parts, dotted v = Some parts /\ parts <> [] /\
+                forall rest res0, ES (fun f => rd_trailers f (norm v) rest) res0 ->
+                                  ES (fun f => primary f (dotted_tokens parts ++ rest)) res0.
+Proof.
+  induction v; try discriminate.
+  - intros _. exists [id]. split; [reflexivity|]. split; [discriminate|].
+    intros rest res0 H. cbn [dotted_tokens app norm] in *.
+    apply ES_primary with (a := EName id) (r := rest); [apply ES_atom_name|exact H].
+  - cbn [name_chain]. intros Hc. destruct (IHv Hc) as [parts [Hd [Hne Hr]]].
+    exists (parts ++ [attr]). split; [cbn [dotted]; rewrite Hd; reflexivity|].
+    split; [destruct parts; discriminate|].
+    intros rest res0 H. rewrite dotted_tokens_snoc by exact Hne. norm_app.
+    apply Hr. apply ES_trailers_dot. cbn [norm] in H. rewrite Hc in H. exact H.
+Qed.
+
+Lemma dotted_none v : name_chain v = false -> dotted v = None.
+Proof.
+  induction v; try reflexivity; try discriminate.
+  cbn [name_chain dotted]. intros H. rewrite (IHv H). reflexivity.
+Qed.
+
+(* ------------------------------------------------------------------ the induction *)
+Lemma P_nonop e : top_op e = None -> nst e = true -> (ok e = true -> Ast e) -> Pst e.
+Proof.
+  intros Ht Hns HA Hok. split.
+  - intros _. split; [apply G_of_A; auto|auto].
+  - intros y Hy. subst e. discriminate.
+Qed.
+
+Lemma P_op e o : top_op e = Some o -> nst e = true -> (ok e = true -> Bst e o) -> Pst e.
+Proof.
+  intros Ht Hns HB Hok. split.
+  - intros _. split; [apply (G_of_B e o); auto|apply (A_of_B e o); auto].
+  - intros y Hy. subst e. discriminate.
+Qed.
+
+Lemma norm_set es : norm (ESet es) = ECall (EName T_set) [EList (map norm es)] [].
+Proof. reflexivity. Qed.
+
+Theorem read_print_all e : Pst e.
+Proof.
+  induction e using expr_ind2.
+  - (* leaf *)
+    apply P_nonop; [reflexivity|reflexivity|]. intros _ pc rest res0 _ _ H. cbn [pp app norm] in *.
+    apply ES_primary with (a := ELeaf l) (r := rest); [apply ES_atom_leaf|exact H].
+  - (* name *)
+    apply P_nonop; [reflexivity|reflexivity|]. intros _ pc rest res0 _ _ H. cbn [pp app norm] in *.
+    apply ES_primary with (a := EName s) (r := rest); [apply ES_atom_name|exact H].
+  - (* attribute *)
+    apply P_nonop; [reflexivity|reflexivity|]. intros _ pc rest res0 _ _ H.
+    destruct (name_chain (EAttr e a g)) eqn:Hc.
+    + destruct (dotted_read _ Hc) as [parts [Hd [_ Hr]]]. cbn [pp]. rewrite Hd. apply Hr. exact H.
+    + cbn [pp]. rewrite (dotted_none _ Hc). cbn [name_chain] in Hc. cbn [norm] in H. rewrite Hc in H.
+      cbn [app]. apply ES_primary with (a := ELeaf (LGen g)) (r := rest); [apply ES_atom_leaf|exact H].
+  - (* unary *)
+    apply (P_op _ (OU u)); [reflexivity|reflexivity|]. intros Hok. cbn [ok] in Hok. apply andb_true_iff in Hok.
+    apply B_un. apply G_of_P; tauto.
+  - (* binary *)
+    apply (P_op _ (OB b)); [reflexivity|reflexivity|]. intros Hok. cbn [ok] in Hok.
+    apply andb_true_iff in Hok. destruct Hok as [Hl Hr]. apply andb_true_iff in Hl. apply andb_true_iff in Hr.
+    apply B_bin; apply G_of_P; tauto.
+  - (* boolean *)
+    apply (P_op _ (OO o)); [reflexivity|reflexivity|]. intros Hok. cbn [ok] in Hok.
+    apply andb_true_iff in Hok. destruct Hok as [Hlen Hall]. apply Nat.leb_le in Hlen.
+    apply B_bool; [exact Hlen|]. apply Forall_G; assumption.
+  - (* tuple *)
+    apply P_nonop; [reflexivity|reflexivity|]. intros Hok pc rest res0 _ _ Hcont. cbn [ok] in Hok.
+    apply andb_true_iff in Hok. destruct Hok as [Hlen Hall].
+    pose proof (Forall_E es H Hall) as HE. clear H.
+    destruct es as [|x es].
+    + cbn [pp map commas app norm] in *. apply ES_primary with (a := ETuple []) (r := rest); [apply ES_atom_unit|exact Hcont].
+    + destruct es as [|y ys]; [discriminate|].
+      inversion HE as [|? ? Ex HE']; subst.
+      cbn [forallb] in Hall. apply andb_true_iff in Hall. destruct Hall as [Hx Hys].
+      destruct (elt_head x Hx) as [t [ts [Hp [Hrp _]]]].
+      cbn [pp norm] in *. cbn [map]. rewrite commas_cons. norm_app.
+      apply ES_primary with (a := ETuple (norm x :: map norm (y :: ys))) (r := rest); [|exact Hcont].
+      assert (Hr : ES (fun f => rd_star f (pp (POther None) x ++ TComma :: commas (map (pp (POther None)) (y :: ys)) ++ TRP :: rest))
+                      (norm x, TComma :: commas (map (pp (POther None)) (y :: ys)) ++ TRP :: rest))
+        by (apply Ex; reflexivity).
+      cbn [map] in Hr. rewrite Hp in *. cbn [app] in *.
+      apply ES_atom_tuple with (r2 := commas (pp (POther None) y :: map (pp (POther None)) ys) ++ TRP :: rest);
+        [exact Hrp|exact Hr|].
+      apply (elts_read (y :: ys) HE' Hys CParen TRP rest). reflexivity.
+  - (* list *)
+    apply P_nonop; [reflexivity|reflexivity|]. intros Hok pc rest res0 _ _ Hcont. cbn [ok] in Hok.
+    pose proof (Forall_E es H Hok) as HE.
+    cbn [pp norm] in *. norm_app.
+    apply ES_primary with (a := EList (map norm es)) (r := rest); [|exact Hcont].
+    apply ES_atom_list. apply (elts_read es HE Hok CBracket TRB rest). reflexivity.
+  - (* set: displayed as set([...]) *)
+    apply P_nonop; [reflexivity|reflexivity|]. intros Hok pc rest res0 _ _ Hcont. cbn [ok] in Hok.
+    pose proof (Forall_E es H Hok) as HE.
+    rewrite norm_set in Hcont. cbn [pp]. norm_app.
+    apply ES_primary with (a := EName T_set) (r := TLP :: TLB :: commas (map (pp (POther None)) es) ++ TRB :: TRP :: rest);
+      [apply ES_atom_name|].
+    apply ES_trailers_call with (args := [EList (map norm es)]) (kws := []) (r2 := rest); [|exact Hcont].
+    apply ES_args_pos_last; [reflexivity|reflexivity|].
+    apply ES_rd with (lhs := EList (map norm es)) (r1 := TRP :: rest); [|apply ES_climb_stop; reflexivity].
+    apply ES_prefix_primary; [reflexivity|].
+    apply ES_primary with (a := EList (map norm es)) (r := TRP :: rest); [|apply ES_trailers_stop; reflexivity].
+    apply ES_atom_list. apply (elts_read es HE Hok CBracket TRB (TRP :: rest)). reflexivity.
+  - (* dict *)
+    apply P_nonop; [reflexivity|reflexivity|]. intros Hok pc rest res0 _ _ Hcont. cbn [ok] in Hok.
+    pose proof (Forall_D items H Hok) as HD. clear H.
+    rewrite pp_dict. rewrite norm_dict in Hcont. norm_app.
+    apply ES_primary with (a := EDict (map normitem items)) (r := rest); [|exact Hcont].
+    destruct items as [|[k v] items].
+    + cbn. apply ES_atom_dict_empty.
+    + destruct k as [k|].
+      * inversion HD as [|? ? HD1 HD']; subst. unfold Dst in HD1. cbn [fst snd] in HD1.
+        destruct HD1 as [[Hk1 [Hk2 Rk]] Rv].
+        destruct (head_prim k (POther None) Hk1 Hk2 (prim_other _ Hk2)) as [t [ts [Hp Hh]]].
+        cbn [map]. rewrite commas_cons.
+        change (itemtoks (Some k, v)) with (pp (POther None) k ++ TColon :: pp (POther (Some prec_comma)) v).
+        change (normitem (Some k, v)) with (Some (norm k), norm v).
+        assert (Hns : is_starred (norm k) = false)
+          by (rewrite is_starred_norm; unfold nst in Hk2; destruct (is_starred k); [discriminate|reflexivity]).
+        destruct (map itemtoks items) as [|b L] eqn:EL.
+        -- assert (items = []) by (destruct items; [reflexivity|discriminate]). subst items. cbn [map]. norm_app.
+           assert (Hr : ES (fun f => rd f L_test (pp (POther None) k ++ TColon :: pp (POther (Some prec_comma)) v ++ TRC :: rest))
+                           (norm k, TColon :: pp (POther (Some prec_comma)) v ++ TRC :: rest))
+             by (apply Rk; [unfold L_test; lia|reflexivity|reflexivity]).
+           rewrite Hp in *. cbn [app] in *.
+           apply ES_atom_dict_one with (r2 := pp (POther (Some prec_comma)) v ++ TRC :: rest); [exact Hh| |exact Hns|].
+           ++ apply ES_star_plain; [destruct t; try discriminate; reflexivity|exact Hr].
+           ++ apply Rv; reflexivity.
+        -- norm_app.
+           assert (Hr : ES (fun f => rd f L_test (pp (POther None) k ++ TColon :: pp (POther (Some prec_comma)) v
+                                                     ++ TComma :: commas (b :: L) ++ TRC :: rest))
+                           (norm k, TColon :: pp (POther (Some prec_comma)) v ++ TComma :: commas (b :: L) ++ TRC :: rest))
+             by (apply Rk; [unfold L_test; lia|reflexivity|reflexivity]).
+           rewrite Hp in *. cbn [app] in *.
+           apply ES_atom_dict_more with (r2 := pp (POther (Some prec_comma)) v ++ TComma :: commas (b :: L) ++ TRC :: rest)
+                                        (r3 := commas (b :: L) ++ TRC :: rest); [exact Hh| |exact Hns| |].
+           ++ apply ES_star_plain; [destruct t; try discriminate; reflexivity|exact Hr].
+           ++ apply Rv; reflexivity.
+           ++ rewrite <- EL. apply dict_read. exact HD'.
+      * pose proof (dict_read ((None, v) :: items) HD rest) as HR.
+        cbn [map] in *. rewrite commas_cons in *.
+        change (itemtoks (None, v)) with (TOp ODStar :: pp (POther None) v) in *.
+        destruct (map itemtoks items) as [|b L] eqn:EL; norm_app; revert HR; norm_app; intros HR;
+          apply ES_atom_dict_unpack; exact HR.
+  - (* subscript *)
+    apply P_nonop; [reflexivity|reflexivity|]. intros Hok pc rest res0 _ _ Hcont. cbn [ok] in Hok.
+    apply andb_true_iff in Hok. destruct Hok as [Hv Hsl]. apply andb_true_iff in Hv. destruct Hv as [Hv1 Hv2].
+    pose proof (A_of_P e1 IHe1 Hv1 Hv2) as Av.
+    assert (Hgen : forall toks,
+               ES (fun f => rd_trailers f (norm e1) (TLB :: toks ++ TRB :: rest))
+                  res0 ->
+               ES (fun f => primary f (pp (POther None) e1 ++ TLB :: toks ++ TRB :: rest)) res0).
+    { intros toks Hx. apply Av; [exact I|apply prim_other; exact Hv2|exact Hx]. }
+    assert (Hplain : ok e2 = true -> nst e2 = true ->
+                     pp pc (ESub e1 e2) = pp (POther None) e1 ++ TLB :: pp (POther None) e2 ++ [TRB] ->
+                     norm (ESub e1 e2) = ESub (norm e1) (norm e2) ->
+                     ES (fun f => primary f (pp pc (ESub e1 e2) ++ rest)) res0).
+    { intros Ho Hn Epp Enorm. rewrite Epp. rewrite Enorm in Hcont. norm_app.
+      apply (Hgen (pp (POther None) e2)).
+      assert (Hn' : is_starred (norm e2) = false)
+        by (rewrite is_starred_norm; unfold nst in Hn; destruct (is_starred e2); [discriminate|reflexivity]).
+      apply ES_trailers_index with (x := norm e2) (r2 := rest); [|rewrite Hn'; exact Hcont].
+      apply (E_of_P e2 IHe2 Ho); reflexivity. }
+    destruct e2; try (apply andb_true_iff in Hsl; destruct Hsl as [Hs1 Hs2]; apply Hplain; [exact Hs1|exact Hs2|reflexivity|reflexivity]).
+    (* a tuple in the slice position *)
+    cbn [sub_elts] in H. destruct es as [|x xs].
+    + apply Hplain; reflexivity.
+    + pose proof (Forall_E (x :: xs) H Hsl) as HE. inversion HE as [|? ? Ex HE']; subst.
+      cbn [forallb] in Hsl. apply andb_true_iff in Hsl. destruct Hsl as [Hx Hxs].
+      destruct (elt_head x Hx) as [t [ts [Hp _]]].
+      cbn [pp norm] in *. cbn [map] in *. rewrite commas_cons.
+      destruct xs as [|y ys].
+      * cbn [map]. norm_app. cbn [app].
+        apply Av; [exact I|apply prim_other; exact Hv2|].
+        apply ES_trailers_index_tuple with (x := norm x) (r2 := TRB :: rest) (xs := []) (r3 := rest); [| |exact Hcont].
+        -- apply Ex; reflexivity.
+        -- apply ES_elts_nil. reflexivity.
+      * cbn [map]. norm_app. cbn [app]. norm_app.
+        apply Av; [exact I|apply prim_other; exact Hv2|].
+        apply ES_trailers_index_tuple with (x := norm x) (xs := map norm (y :: ys)) (r3 := rest)
+                                           (r2 := commas (map (pp (POther None)) (y :: ys)) ++ TRB :: rest);
+          [| |exact Hcont].
+        -- apply Ex; reflexivity.
+        -- apply (elts_read (y :: ys) HE' Hxs CBracket TRB rest). reflexivity.
+  - (* call *)
+    apply P_nonop; [reflexivity|reflexivity|]. intros Hok pc rest res0 _ _ Hcont. cbn [ok] in Hok.
+    apply andb_true_iff in Hok. destruct Hok as [Hok Hkws]. apply andb_true_iff in Hok. destruct Hok as [Hf Hargs].
+    apply andb_true_iff in Hf. destruct Hf as [Hf1 Hf2].
+    rewrite pp_call. rewrite norm_call in Hcont. norm_app.
+    apply (A_of_P e IHe Hf1 Hf2); [exact I|apply prim_other; exact Hf2|].
+    apply ES_trailers_call with (args := map norm args) (kws := map normkw kws) (r2 := rest); [|exact Hcont].
+    apply args_read.
+    + apply Forall_Arg; assumption.
+    + clear - H0 Hkws. induction kws as [|[k v] kws IH]; constructor.
+      * inversion H0 as [|? ? Hv _]; subst. cbn [snd] in *. cbn [forallb snd] in Hkws.
+        apply andb_true_iff in Hkws. destruct Hkws as [Hv' _]. apply andb_true_iff in Hv'.
+        apply R_of_G. apply G_of_P; tauto.
+      * inversion H0; subst. cbn [forallb] in Hkws. apply andb_true_iff in Hkws. apply IH; tauto.
+  - (* starred *)
+    intros Hok. split; [discriminate|]. intros y Hy. inversion Hy; subst y.
+    destruct (ok_starred e Hok) as [H1 H2]. apply G_of_P; assumption.
+Qed.
+
+(* ------------------------------------------------------------------ from the guards of the statement to ok *)
+Lemma wf_elt_eq x : wf_elt wf_source x = wf_source x.
+Proof. destruct x; reflexivity. Qed.
+
+Definition OKst (e : expr) : Prop := wf_source e = true -> no_one_tuple e = true -> ok e = true.
+
+Lemma plain_split x : wf_source x && negb (is_starred x) = true -> wf_source x = true /\ nst x = true.
+Proof. intros H. apply andb_true_iff in H. exact H. Qed.
+
+Lemma forallb_ok_elts es :
+  Forall OKst es -> forallb (wf_elt wf_source) es = true -> forallb no_one_tuple es = true -> forallb ok es = true.
+Proof.
+  induction es as [|x es IH]; intros HF H1 H2; [reflexivity|].
+  inversion HF; subst. cbn [forallb] in *. apply andb_true_iff in H1. apply andb_true_iff in H2.
+  destruct H1 as [H1 H1']. destruct H2 as [H2 H2']. rewrite wf_elt_eq in H1.
+  apply andb_true_iff. split; [auto|apply IH; auto].
+Qed.
+
+Lemma forallb_ok_plain es :
+  Forall OKst es -> forallb (fun x => wf_source x && negb (is_starred x)) es = true ->
+  forallb no_one_tuple es = true -> forallb (fun x => ok x && nst x) es = true.
+Proof.
+  induction es as [|x es IH]; intros HF H1 H2; [reflexivity|].
+  inversion HF; subst. cbn [forallb] in *. apply andb_true_iff in H1. apply andb_true_iff in H2.
+  destruct H1 as [H1 H1']. destruct H2 as [H2 H2']. destruct (plain_split _ H1) as [Hw Hn].
+  apply andb_true_iff. split; [|apply IH; auto].
+  apply andb_true_iff. split; auto.
+Qed.
+
+Lemma ok_of_guards e : OKst e.
+Proof.
+  induction e using expr_ind2; unfold OKst; intros Hw Hn; try reflexivity.
+  - cbn [wf_source no_one_tuple ok] in *. destruct (plain_split _ Hw) as [H1 H2].
+    apply andb_true_iff; split; auto.
+  - cbn [wf_source no_one_tuple ok] in *. apply andb_true_iff in Hw. apply andb_true_iff in Hn.
+    destruct Hw as [Hl Hr]. destruct Hn as [Hnl Hnr].
+    destruct (plain_split _ Hl) as [H1 H2]. destruct (plain_split _ Hr) as [H3 H4].
+    apply andb_true_iff; split; apply andb_true_iff; split; auto.
+  - cbn [wf_source no_one_tuple ok] in *. apply andb_true_iff in Hw. destruct Hw as [Hlen Hall].
+    apply andb_true_iff; split; [exact Hlen|]. apply forallb_ok_plain; auto.
+  - cbn [wf_source no_one_tuple ok] in *. apply andb_true_iff in Hn. destruct Hn as [Hlen Hall].
+    apply andb_true_iff; split; [exact Hlen|]. apply forallb_ok_elts; auto.
+  - cbn [wf_source no_one_tuple ok] in *. apply forallb_ok_elts; auto.
+  - cbn [wf_source no_one_tuple ok] in *. apply forallb_ok_elts; auto.
+  - cbn [wf_source no_one_tuple ok] in *.
+    induction items as [|[k v] items IH]; [reflexivity|].
+    inversion H as [|? ? [Hk Hv] HF']; subst. cbn [forallb fst snd] in *.
+    apply andb_true_iff in Hw. apply andb_true_iff in Hn. destruct Hw as [Hw1 Hw2]. destruct Hn as [Hn1 Hn2].
+    apply andb_true_iff in Hw1. apply andb_true_iff in Hn1. destruct Hw1 as [Hwk Hwv]. destruct Hn1 as [Hnk Hnv].
+    destruct (plain_split _ Hwv) as [Hv1 Hv2].
+    apply andb_true_iff; split; [|apply IH; auto].
+    apply andb_true_iff; split.
+    + destruct k as [k|]; [|reflexivity]. destruct (plain_split _ Hwk) as [Hk1 Hk2].
+      apply andb_true_iff; split; auto.
+    + apply andb_true_iff; split; auto.
+  - cbn [wf_source no_one_tuple ok] in *. apply andb_true_iff in Hw. apply andb_true_iff in Hn.
+    destruct Hw as [Hwv Hws]. destruct Hn as [Hnv Hns]. destruct (plain_split _ Hwv) as [H1 H2].
+    apply andb_true_iff; split; [apply andb_true_iff; split; auto|].
+    destruct e2; try (destruct (plain_split _ Hws) as [H3 H4]; apply andb_true_iff; split; auto).
+    cbn [sub_elts] in H. apply forallb_ok_elts; auto.
+  - cbn [wf_source no_one_tuple ok] in *. apply andb_true_iff in Hw. apply andb_true_iff in Hn.
+    destruct Hw as [Hw Hwk]. destruct Hn as [Hn Hnk]. apply andb_true_iff in Hw. apply andb_true_iff in Hn.
+    destruct Hw as [Hwf Hwa]. destruct Hn as [Hnf Hna]. destruct (plain_split _ Hwf) as [H1 H2].
+    apply andb_true_iff; split; [apply andb_true_iff; split|].
+    + apply andb_true_iff; split; auto.
+    + apply forallb_ok_elts; auto.
+    + clear - H0 Hwk Hnk. induction kws as [|[k v] kws IH]; [reflexivity|].
+      inversion H0 as [|? ? Hv HF']; subst. cbn [forallb snd] in *. apply andb_true_iff in Hwk. apply andb_true_iff in Hnk.
+      destruct Hwk as [Hw1 Hw2]. destruct Hnk as [Hn1 Hn2]. destruct (plain_split _ Hw1) as [Hp1 Hp2].
+      apply andb_true_iff; split; [apply andb_true_iff; split; auto|apply IH; auto].
+  - cbn [wf_source no_one_tuple ok] in *. destruct (plain_split _ Hw) as [H1 H2].
+    apply andb_true_iff; split; auto.
+Qed.
+
+(* ------------------------------------------------------------------ C15_read_print, "enough fuel" form *)
+Theorem read_print_ES e pc :
+  good_pc pc -> wf_source e = true -> is_starred e = false -> no_one_tuple e = true ->
+  ES (fun f => rd f L_test (pp pc e)) (norm e, []).
+Proof.
+  intros Hg Hw Hs Hn.
+  pose proof (ok_of_guards e Hw Hn) as Hok.
+  assert (Hns : nst e = true) by (unfold nst; rewrite Hs; reflexivity).
+  rewrite <- (app_nil_r (pp pc e)).
+  apply (G_of_P e (read_print_all e) Hok Hns); [exact Hg|apply Nat.le_0_l|reflexivity|reflexivity|].
+  apply ES_climb_stop. reflexivity.
+Qed.
+
+(* the recorded defect: the one-element tuple *)
+Lemma one_tuple_witness :
+  let e := ETuple [EName [98%N]] in
+  wf_source e = true /\ read (pp PNone e) = Some (EName [98%N]) /\ norm e = ETuple [EName [98%N]].
+Proof. vm_compute. repeat split. Qed.
+
+(* ------------------------------------------------------------------ the operator symbols the colouriser writes (read from its
+   source into Gen/TablesC15.v) are Python's spelling of the token pp prints for that operator *)
+Definition spelled (t : token) (pre post : text) (shown : text) : Prop :=
+  match tok_text t with Some sp => shown = pre ++ sp ++ post | None => False end.
+
+Lemma operator_spelling :
+  (forall b : binop, spelled (btok b) [] [] (bop_text b)) /\
+  (forall u : unop, spelled (utok u) [] (match u with UNot => [32%N] | _ => [] end) (uop_text u)) /\
+  (forall o : boolop, spelled (otok o) [32%N] [32%N] (boolop_text o)).
+Proof.
+  split; [|split].
+  - intros b; destruct b; reflexivity.
+  - intros u; destruct u; reflexivity.
+  - intros o; destruct o; reflexivity.
 Qed.
